@@ -328,3 +328,188 @@ Section TableLine.
       rewrite <- app_assoc. reflexivity.
   Qed.
 End TableLine.
+
+(** * reading a written file, generic in parser, formatter and sink *)
+
+Lemma trim_right_keeps2 a b r : is_space a = false -> is_space b = false ->
+  exists r', trim_right (a :: b :: r) = a :: b :: r'.
+Proof.
+  intros Ha Hb. change (trim_right (a :: b :: r)) with
+    (match trim_right (b :: r) with [] => if is_space a then [] else [a] | r' => a :: r' end).
+  change (trim_right (b :: r)) with (match trim_right r with [] => if is_space b then [] else [b] | r' => b :: r' end).
+  destruct (trim_right r) as [|x r'']; [rewrite Hb; now exists [] | now exists (x :: r'')].
+Qed.
+
+Lemma ends_nonspace_clean s : s <> [] -> Forall (fun b => is_space b = false) s -> ends_nonspace s = true.
+Proof.
+  unfold ends_nonspace. induction s as [|b r IH]; intros Hn H; [contradiction|].
+  inversion H as [|? ? Hb Hr]; subst. cbn [last_byte]. destruct r as [|c r']; [now rewrite Hb|].
+  apply IH; [discriminate | exact Hr].
+Qed.
+
+Definition no_lf (s : bytes) : bool := forallb (fun b => negb (is_lf b)) s.
+
+Lemma no_lf_spec s : no_lf s = true -> Forall (fun b => is_lf b = false) s.
+Proof.
+  unfold no_lf. rewrite forallb_forall. intro H. apply Forall_forall. intros b Hb. specialize (H b Hb).
+  now apply negb_true_iff in H.
+Qed.
+
+Section ReadGeneric.
+  Variable S : Type.
+  Variable parser : list bytes -> option (bytes * bytes).
+  Variable s_meta_put : S -> bytes -> bytes -> S * bool.
+  Variable s_put : S -> bytes -> bytes -> S * bool.
+  Variable fmt : bytes -> bytes -> option (list bytes).
+  Variable step : rstate S -> bytes * bytes -> rstate S.
+
+  Notation read_line := (read_line S parser s_meta_put s_put).
+
+  (** the sink ignores metadata (UserDbImporter::MetaPut) *)
+  Hypothesis meta_ignored : forall s k v, fst (s_meta_put s k v) = s.
+
+  Lemma read_meta_ignored st r : r_comment st = true -> read_line st (HASH :: x40 :: r) = st.
+  Proof.
+    intro Hc. destruct (trim_right_keeps2 HASH x40 r eq_refl eq_refl) as [r' E].
+    unfold read_line. rewrite E, Hc. cbn [andb]. change (Byte.eqb HASH HASH) with true. cbv iota.
+    destruct (split_on is_tab r') as [|k [|v [|x y]]]; try reflexivity.
+    rewrite meta_ignored. destruct st as [s0 c0 n0]. cbn in *. now subst.
+  Qed.
+
+  Lemma read_metas_ignored metas : forall st rest, r_comment st = true ->
+    forallb (fun kv => no_lf (fst kv) && no_lf (snd kv)) metas = true ->
+    fold_left read_line (lines_of (concat (map meta_line metas) ++ rest)) st = fold_left read_line (lines_of rest) st.
+  Proof.
+    induction metas as [|[k v] metas IH]; intros st rest Hc H; [reflexivity|].
+    cbn [forallb fst snd] in H. apply andb_true_iff in H. destruct H as [H1 H2].
+    apply andb_true_iff in H1. destruct H1 as [Lk Lv]. apply no_lf_spec in Lk, Lv.
+    cbn [map concat]. rewrite meta_line_content, <- !app_assoc. cbn [app].
+    rewrite lines_of_app.
+    2:{ unfold meta_content. cbn [fst snd]. constructor; [reflexivity|]. constructor; [reflexivity|].
+        apply Forall_app. split; [exact Lk|]. constructor; [reflexivity | exact Lv]. }
+    unfold meta_content. cbn [fst snd].
+    cbn [fold_left]. rewrite read_meta_ignored by exact Hc. now apply IH.
+  Qed.
+
+  (** a record is either skipped by the formatter, or written as one LF-free line that the reader
+      turns into [step] *)
+  Definition line_ok (kv : bytes * bytes) : Prop :=
+    (data_line fmt kv = [] /\ forall st, step st kv = st) \/
+    (exists c, data_line fmt kv = c ++ [LF] /\ Forall (fun b => is_lf b = false) c /\ forall st, read_line st c = step st kv).
+
+  Lemma read_datas_gen l : Forall line_ok l -> forall st,
+    fold_left read_line (lines_of (concat (map (data_line fmt) l))) st = fold_left step l st.
+  Proof.
+    induction 1 as [|kv l Hk Hl IH]; intro st; [reflexivity|].
+    cbn [map concat fold_left]. destruct Hk as [[E Hs]|(c & E & Lc & Hr)].
+    - rewrite E, Hs. cbn [app]. apply IH.
+    - rewrite E, <- app_assoc. cbn [app]. rewrite lines_of_app by exact Lc. cbn [fold_left]. rewrite Hr. apply IH.
+  Qed.
+
+  Theorem read_file_gen descr_raw body metas l st :
+    r_comment st = true ->
+    Forall (fun b => is_lf b = false) descr_raw ->
+    trim_right descr_raw = HASH :: x20 :: body -> bytes_eqb (HASH :: x20 :: body) s_no_comment = false ->
+    forallb (fun kv => no_lf (fst kv) && no_lf (snd kv)) metas = true -> Forall line_ok l ->
+    fold_left read_line (lines_of ((descr_raw ++ [LF]) ++ concat (map meta_line metas) ++ concat (map (data_line fmt) l))) st
+    = fold_left step l st.
+  Proof.
+    intros Hc Hl Ht Hn Hm Hd. rewrite <- app_assoc. cbn [app]. rewrite lines_of_app by exact Hl.
+    cbn [fold_left].
+    assert (E : read_line st descr_raw = st).
+    { unfold read_line. rewrite Ht, Hc. cbn [andb]. change (Byte.eqb HASH HASH) with true. cbv iota. now rewrite Hn. }
+    rewrite E, read_metas_ignored by assumption. now apply read_datas_gen.
+  Qed.
+End ReadGeneric.
+
+(** * the table format: what Export writes, Import reads *)
+
+Definition starts_with_hash (s : bytes) : bool := match s with b :: _ => Byte.eqb b HASH | [] => false end.
+
+(** keys that survive text export: code = core ++ " " with a tidy core, text not starting with '#' *)
+Definition wf_export_key (k : bytes) : bool :=
+  match split_on is_tab k with
+  | [code; text] =>
+      let core := removelast code in
+      bytes_eqb (core ++ [x20]) code && negb (is_empty core) && bytes_eqb (drop_ws core) core
+      && bytes_eqb (trim_right core) core && no_lf core && wf_text text && negb (starts_with_hash text)
+  | _ => false
+  end.
+
+Lemma wf_export_key_spec k : wf_export_key k = true ->
+  exists core text, k = (core ++ [x20]) ++ TAB :: text /\ tidy core /\ text <> [] /\
+    Forall (fun b => is_tab b = false) core /\ Forall (fun b => is_tab b = false) text /\
+    Forall (fun b => is_lf b = false) core /\ Forall (fun b => is_lf b = false) text /\ starts_with_hash text = false.
+Proof.
+  unfold wf_export_key. intro H. pose proof (join_split_tab k) as J. pose proof (split_pieces_clean is_tab k) as P.
+  destruct (split_on is_tab k) as [|code [|text [|x r]]] eqn:Sk; try discriminate.
+  apply andb_true_iff in H. destruct H as [H A7]. apply andb_true_iff in H. destruct H as [H A6].
+  apply andb_true_iff in H. destruct H as [H A5]. apply andb_true_iff in H. destruct H as [H A4].
+  apply andb_true_iff in H. destruct H as [H A3]. apply andb_true_iff in H. destruct H as [A1 A2].
+  apply bytes_eqb_eq in A1, A3, A4. apply negb_true_iff in A2, A7.
+  destruct (wf_text_spec _ A6) as (Nt & Tt & Lt).
+  pose proof (Forall_inv P) as Pc. cbn beta in Pc.
+  exists (removelast code), text. cbn [join_tab] in J. rewrite A1.
+  split; [now symmetry|]. split; [|split; [exact Nt|]].
+  - split; [|split; assumption]. destruct (removelast code); [discriminate A2 | discriminate].
+  - split; [rewrite <- A1 in Pc; apply Forall_app in Pc; apply Pc|].
+    split; [exact Tt|]. split; [now apply no_lf_spec|]. split; [exact Lt | exact A7].
+Qed.
+
+Section TableFile.
+  Variable O : dee_ops.
+
+  Definition imp_sink_meta (d : db) (k v : bytes) : db * bool := (d, true).
+  Definition imp_sink_put (d : db) (k v : bytes) : db * bool := (imp_put O d k v, true).
+
+  (** what one exported record does to the importing dictionary *)
+  Definition exported_value (v : bytes) : bytes :=
+    let c := commits (unpack O v) in pack O {| commits := c; dee := d_of_commits O c; tick := 0 |}.
+
+  Definition import_step (st : rstate db) (kv : bytes * bytes) : rstate db :=
+    if (commits (unpack O (snd kv)) <? 0)%Z then st
+    else {| r_sink := imp_put O (r_sink st) (fst kv) (exported_value (snd kv));
+            r_comment := r_comment st; r_count := Datatypes.S (r_count st) |}.
+
+  Lemma table_line_ok kv : wf_export_key (fst kv) = true ->
+    line_ok db (table_parser O) imp_sink_meta imp_sink_put (table_formatter O) import_step kv.
+  Proof.
+    destruct kv as [k v]. cbn [fst]. intro H.
+    destruct (wf_export_key_spec _ H) as (core & text & Ek & Ty & Nt & Tc & Tt & Lc & Lt & Hh).
+    destruct (commits (unpack O v) <? 0)%Z eqn:Ec.
+    - left. split; [|intro st; unfold import_step; cbn [snd]; now rewrite Ec].
+      unfold data_line, table_formatter. cbn [fst snd]. subst k.
+      rewrite split_on_app; [|apply Forall_app; split; [exact Tc | repeat constructor] | reflexivity].
+      rewrite split_on_none by exact Tt.
+      assert (is_empty (core ++ [x20]) = false) as -> by (destruct core; reflexivity).
+      assert (is_empty text = false) as -> by (destruct text; [contradiction|reflexivity]).
+      cbn [orb]. now rewrite Ec.
+    - right. apply Z.ltb_ge in Ec.
+      destruct (export_import_line O core text v Ty Nt Tc Tt Ec) as [F P]. cbn zeta in F, P. rewrite <- Ek in F, P.
+      set (c := commits (unpack O v)) in *.
+      exists (text ++ TAB :: core ++ TAB :: print_Z c).
+      assert (Cl : Forall (fun b => is_space b = false) (print_Z c))
+        by (eapply Forall_impl; [|apply print_Z_clean]; intros b [Hb _]; exact Hb).
+      assert (Tz : Forall (fun b => is_tab b = false) (print_Z c))
+        by (eapply Forall_impl; [|exact Cl]; intros b Hb; destruct b; try reflexivity; discriminate Hb).
+      assert (Lz : Forall (fun b => is_lf b = false) (print_Z c))
+        by (eapply Forall_impl; [|exact Cl]; intros b Hb; destruct b; try reflexivity; discriminate Hb).
+      split; [|split].
+      + unfold data_line. cbn [fst snd]. rewrite F. cbn [join_tab]. now rewrite <- !app_assoc.
+      + apply Forall_app. split; [exact Lt|]. constructor; [reflexivity|].
+        apply Forall_app. split; [exact Lc|]. constructor; [reflexivity|exact Lz].
+      + intro st. unfold read_line.
+        rewrite trim_right_id.
+        2:{ replace (text ++ TAB :: core ++ TAB :: print_Z c) with ((text ++ TAB :: core ++ [TAB]) ++ print_Z c)
+              by (rewrite <- !app_assoc; cbn [app]; now rewrite <- app_assoc).
+            apply ends_nonspace_app, ends_nonspace_clean; [apply print_Z_nonempty | exact Cl]. }
+        destruct text as [|b tr]; [contradiction|]. cbn [starts_with_hash] in Hh. cbn [app]. rewrite Hh, andb_false_r.
+        change (b :: tr ++ TAB :: core ++ TAB :: print_Z c) with ((b :: tr) ++ TAB :: core ++ TAB :: print_Z c).
+        rewrite split_on_app by (assumption || reflexivity).
+        rewrite split_on_app by (assumption || reflexivity).
+        rewrite split_on_none by exact Tz.
+        match goal with |- match ?t with _ => _ end = _ => replace t with (Some (k, pack O {| commits := c; dee := d_of_commits O c; tick := 0 |})) by (symmetry; exact P) end.
+        unfold import_step, imp_sink_put, exported_value. cbn [fst snd]. fold c.
+        apply Z.ltb_ge in Ec. now rewrite Ec.
+  Qed.
+End TableFile.
